@@ -9,7 +9,10 @@ import itertools
 import operator
 import types
 
-import z3
+try:
+    import z3
+except ImportError:      # replays run under the repository's interpreter, without z3
+    z3 = None
 
 from .path import Unsupported, PathAbort
 from .values import (Sym, SInt, SBool, SStr, SOpt, SChoice, SList, Opaque, OpaqueVal,
